@@ -1623,9 +1623,9 @@ struct const_subarray : array_types<T, D, ElementPtr, Layout> {
 
 	// NOLINTBEGIN(google-runtime-operator) //NOSONAR
 	// operator& is not defined for r-values anyway
-	constexpr auto operator&()     && { return addressof(); }  // NOLINT(runtime/operator) //NOSONAR
+	constexpr auto operator&()     && { return static_cast<const_subarray const&>(*this).addressof(); }  // NOLINT(runtime/operator) //NOSONAR a const_subarray is read-only whatever its value category (subarray has the mutable overloads)
 	// [[deprecated("controversial")]]
-	constexpr auto operator&()      & { return addressof(); }  // NOLINT(runtime/operator) //NOSONAR
+	constexpr auto operator&()      & { return static_cast<const_subarray const&>(*this).addressof(); }  // NOLINT(runtime/operator) //NOSONAR
 	// [[deprecated("controversial")]]
 	constexpr auto operator&() const& { return addressof(); }  // NOLINT(runtime/operator) //NOSONAR
 	// NOLINTEND(google-runtime-operator)
@@ -1981,6 +1981,7 @@ class subarray : public const_subarray<T, D, ElementPtr, Layout> {
 	// BOOST_MULTI_HD constexpr auto operator&() const& {return subarray_ptr<const_subarray, Layout>{this->base_, this->layout()};}  // NOLINT(google-runtime-operator) extend semantics  //NOSONAR
 
 	using const_subarray<T, D, ElementPtr, Layout>::const_subarray;
+
 
 	using const_subarray<T, D, ElementPtr, Layout>::begin;
 	constexpr auto begin() && { return this->begin_aux_(); }
